@@ -437,36 +437,53 @@ char *FUNC(generate)(jwt_common_t *__cmd)
 	char *out = NULL;
 	jwt_value_t jval;
 	time_t tm = time(NULL);
+	int failed = 0;
 
 	if (__cmd == NULL)
 		return NULL;
 
 	jwt = jwt_malloc(sizeof(*jwt));
-	if (jwt == NULL)
-		return NULL; // LCOV_EXCL_LINE
+	if (jwt == NULL) {
+		// LCOV_EXCL_START
+		jwt_write_error(__cmd, "Error allocating memory");
+		return NULL;
+		// LCOV_EXCL_STOP
+	}
 
 	memset(jwt, 0, sizeof(*jwt));
 
 	jwt->headers = json_deep_copy(__cmd->c.headers);
 	jwt->claims = json_deep_copy(__cmd->c.payload);
+	if (jwt->headers == NULL || jwt->claims == NULL)
+		failed = 1; // LCOV_EXCL_LINE
 
 	/* Our internal work first */
 	if (__cmd->c.claims & JWT_CLAIM_IAT) {
 		jwt_set_SET_INT(&jval, "iat", (long)tm);
 		jval.replace = 1;
-		jwt_claim_set(jwt, &jval);
+		if (jwt_claim_set(jwt, &jval))
+			failed = 1; // LCOV_EXCL_LINE
 	}
 
 	if (__cmd->c.claims & JWT_CLAIM_NBF) {
 		jwt_set_SET_INT(&jval, "nbf", (long)(tm + __cmd->c.nbf));
 		jval.replace = 1;
-		jwt_claim_set(jwt, &jval);
+		if (jwt_claim_set(jwt, &jval))
+			failed = 1; // LCOV_EXCL_LINE
 	}
 
 	if (__cmd->c.claims & JWT_CLAIM_EXP) {
 		jwt_set_SET_INT(&jval, "exp", (long)(tm + __cmd->c.exp));
 		jval.replace = 1;
-		jwt_claim_set(jwt, &jval);
+		if (jwt_claim_set(jwt, &jval))
+			failed = 1; // LCOV_EXCL_LINE
+	}
+
+	if (failed) {
+		// LCOV_EXCL_START
+		jwt_write_error(__cmd, "Error allocating memory");
+		return NULL;
+		// LCOV_EXCL_STOP
 	}
 
 	/* Alg and key checks */
